@@ -136,8 +136,15 @@ def run(chk, replay_case=None):
     # the known finding; real run != model and the property's own statement fails -> a DIFFERENT violation ->
     # VIOLATION; real run != model and the statement holds -> the finding no longer reproduces there (stale).
     smism = vlib.eval_mismatches("C06", HEADER, [case_term(c) for c in stream], case_type="fcase", shard=400) if stream else {}
-    different = [i for i in sorted(smism, key=lambda i: size(stream[i])) if stream[i]["oracle"]]
+    # "different" is judged on what the property talks about (error class, committed record, committed effects),
+    # not on the operation journal
+    OUTCOME = (2, 4, 5)
+    different = [i for i in sorted(smism, key=lambda i: size(stream[i]))
+                 if stream[i]["oracle"] and any(e in OUTCOME for e in smism[i])]
+    journal_only = [i for i in sorted(smism, key=lambda i: size(stream[i]))
+                    if stream[i]["oracle"] and not any(e in OUTCOME for e in smism[i])]
     stale_variants = [i for i in smism if not stream[i]["oracle"]]
+    deferred = []
     for f in findings:
         rc = json.load(open(os.path.join(vlib.VERIF, f["replay"])))["case"]
         rp = chk.tmp("finding_%s.json" % f["id"])
@@ -150,8 +157,8 @@ def run(chk, replay_case=None):
             chk.known("id=%s %s (replay %s fails as listed: %s; %d generated variants fail the same way)" % (
                 f["id"], f["what"], f["replay"], got["oracle"][:120], len(variants)))
         elif got.get("oracle"):
-            chk.violation("fence: the replay of known finding %s now fails in a different way than listed: %s" % (f["id"], got["oracle"]),
-                          {"case": slim(got), "model_disagreements": [CODES.get(e, str(e)) for e in rmism.get(0, [])]}, True)
+            deferred.append(("fence: the replay of known finding %s now fails in a different way than listed: %s" % (f["id"], got["oracle"]),
+                             {"case": slim(got), "model_disagreements": [CODES.get(e, str(e)) for e in rmism.get(0, [])]}, True))
         else:
             print("STALE-FINDING: property=C06 id=%s its replay no longer fails" % f["id"])
             chk.notes.append("stale finding " + f["id"])
@@ -178,6 +185,13 @@ def run(chk, replay_case=None):
         chk.violation("fence (inside the region of known finding %s, but NOT the listed failure): %s" % (c["pred"], c["oracle"]),
                       {"case": slim(c), "expected_failing_outcome": "the model's (Fence/FenceCases.v check_case)",
                        "model_disagreements": [CODES.get(e, str(e)) for e in smism[i]]}, True)
+    for d in deferred:
+        chk.violation(*d)
+    if journal_only and not chk.violations:
+        c = stream[journal_only[0]]
+        chk.violation("inside the region of known finding %s the code fails as listed but no longer issues the operations of the "
+                      "model the theorems are about" % c["pred"],
+                      {"case": slim(c), "model_disagreements": [CODES.get(e, str(e)) for e in smism[journal_only[0]]]}, False)
     for c in infra[:1]:
         if not oracle_fail:
             chk.violation("fence race could not be scheduled on the real code: " + c["infra"], {"case": slim(c)}, True)
